@@ -3,7 +3,7 @@
 While `ctl.active`, every main-process file-system effect is numbered:
   open-for-write (truncating or appending)  -> 'open'
   the buffered content reaching the file + close -> 'commit' (crash variants: only a prefix of `cut` bytes is on disk)
-  os.remove/unlink, os.rmdir, os.makedirs (when it creates something), os.rename/replace, shutil.move, shutil.copyfile
+  os.remove/unlink, os.rmdir, os.mkdir (each directory os.makedirs creates is one effect), os.rename/replace, shutil.move, shutil.copyfile
 In a dry run the effects are logged; in a crash run the process dies with os._exit(137) immediately *before*
 effect number `crash_at` (for a 'commit' effect: after writing the first `cut` bytes of the content).
 Writes are held in memory until close, which is what buffered text/binary files do for the small files
@@ -134,18 +134,15 @@ def install(ctl):
 
     for name in ("remove", "unlink", "rmdir"):
         wrap1(os, name, name)
-    real_makedirs = os.makedirs
+    # directories: every single mkdir is an effect (os.makedirs creates a chain of them and can die in between)
+    real_mkdir = os.mkdir
 
-    def makedirs(path, *a, **k):
-        if not os.path.isdir(path):
-            ctl.effect("makedirs", path)
-        ctl.nested += 1
-        try:
-            return real_makedirs(path, *a, **k)
-        finally:
-            ctl.nested -= 1
+    def mkdir(path, *a, **k):
+        if ctl.nested == 0:
+            ctl.effect("mkdir", path)
+        return real_mkdir(path, *a, **k)
 
-    os.makedirs = makedirs
+    os.mkdir = mkdir
     for name in ("rename", "replace"):
         wrap2(os, name, name)
     wrap2(shutil, "move", "move")
